@@ -90,9 +90,16 @@ Fixpoint ui_names (e : uiel) : list nat :=
   end.
 
 (* ---- objtree.rs: post-order flattening with child index lists ---- *)
-Fixpoint flatten (n : onode) (acc : list (okind * nat * list nat)) : list (okind * nat * list nat) * nat :=
+Notation fnode := (okind * nat * list nat)%type.
+Fixpoint flatten (n : onode) (acc : list fnode) : list fnode * nat :=
   match n with
   | ON k nm _ ch =>
-      let '(acc', idxs) := fold_left (fun st c => let '(a, ix) := st in let '(a', i) := flatten c a in (a', ix ++ [i])) ch (acc, []) in
+      let '(acc', idxs) := (fix go (cs : list onode) (a : list fnode) : list fnode * list nat :=
+                              match cs with
+                              | [] => (a, [])
+                              | c :: r => let '(a1, i) := flatten c a in let '(a2, ix) := go r a1 in (a2, i :: ix)
+                              end) ch acc in
       (acc' ++ [(k, nm, idxs)], List.length acc')
   end.
+Definition flatten_tree (root : onode) : list fnode := fst (flatten root []).
+Fixpoint post_order (n : onode) : list nat := match n with ON _ nm _ ch => flat_map post_order ch ++ [nm] end.
